@@ -184,7 +184,8 @@ class EncodeArrayLike(Contract):
     name = f"{ENUM}._encode_array_like"
     prop = ("C15",)
     top_level = True
-    cases = ("ints", "members", "names", "member-of-another-enum-second", "member-of-another-enum-first", "floats", "mixed-int-and-str")
+    cases = ("ints", "members", "names", "member-of-another-enum-second", "member-of-another-enum-first", "floats", "numpy-float-scalars",
+             "mixed-int-and-str")
     descr = ("a sequence is encoded to the indices of the members it designates, in order; anything that is not a member of this "
              "enumeration (index out of range on either side, member of another enumeration, unsupported element type) raises")
     inline = (f"{IE}._guards.*", f"{IE}._utils.*", f"{EARR}.__new__", f"{IE}._errors.*")
@@ -213,6 +214,10 @@ class EncodeArrayLike(Contract):
             a["value"] = ListVal([w.member(w.G, 1), w.member(w.H, X(1))])
         elif case == "floats":
             a["value"] = ListVal([1.5, 2.5])
+        elif case == "numpy-float-scalars":
+            f64 = ClassVal("float64", None, [I.builtins["float"]], {}, external="numpy.float64")
+            from pyvc.values import NpScalar
+            a["value"] = ListVal([NpScalar(ctx.fresh_real("x%d" % k), "float", f64) for k in range(2)])
         else:
             a["value"] = ListVal([0, "x"])
         return a
@@ -221,7 +226,7 @@ class EncodeArrayLike(Contract):
         w, L, X, case = a["__w"], a["__L"], a["__X"], a["__case"]
         if case in ("member-of-another-enum-second", "member-of-another-enum-first"):
             return [("member-of-another-enumeration-refused", out[0] == "raise")]
-        if case in ("floats", "mixed-int-and-str"):
+        if case in ("floats", "mixed-int-and-str", "numpy-float-scalars"):
             return [("unsupported-elements-refused", out[0] == "raise" and out[1].cls.name in ("EnumEncodingError", "EnumMemberNotFoundError", "TypeError"))]
         i = ctx.fresh_int("i")
         rng = z3.And(i >= 0, i < L)
@@ -345,7 +350,8 @@ class EnumEncode(Contract):
         if case == "empty-list":
             r = out[1] if out[0] == "return" else None
             return [("empty-input-gives-an-empty-enum-array", isinstance(r, nparr.NArr) and r.cls_override is not None and
-                     r.attrs.get("possible_values") is a["cls"] and (isinstance(r.n, int) and r.n == 0) and not log)]
+                     r.attrs.get("possible_values") is a["cls"] and (isinstance(r.n, int) and r.n == 0) and not log),
+                    ("of-the-index-dtype-so-that-it-can-be-decoded", isinstance(r, nparr.NArr) and r.dtype == "uint8")]
         want = "like" if case == "sequence" else "array"
         ok = len(log) == 1 and log[0]["callee"] == want and log[0]["args"]["value"] is a["array"] and log[0]["args"]["cls"] is a["cls"]
         res = [("sent-to-the-right-encoder-once", ok)]
